@@ -441,10 +441,12 @@ seq_t dtw_warping_paths{{ suffix }}{{ suffix2 }}(seq_t *wps,
         {%- else %}
         idx_t mic = l2;  // nothing to mark if no end point is found in the last row
         {%- endif %}
+        // Only rows/columns of which the last column/row lies inside the window are candidates
+        idx_t min_rci = MAX(0, MIN(l1, l2) - p.window);
         // Find smallest value in last column
         if (settings->psi_1e != 0) {
             wpsi = final_wpsi;
-            for (ri=l1-1; ri>l1-settings->psi_1e-2; ri--) {
+            for (ri=l1-1; ri>l1-settings->psi_1e-2 && ri>=min_rci; ri--) {
                 if (wps[wpsi] < mir_value) {
                     mir_value = wps[wpsi];
                     mir_rel = ri + 1;
@@ -457,7 +459,7 @@ seq_t dtw_warping_paths{{ suffix }}{{ suffix2 }}(seq_t *wps,
         // Find smallest value in last row
         if (settings->psi_2e != 0) {
             wpsi = final_wpsi;
-            for (ci=l2-1; ci>l2-settings->psi_2e-2; ci--) {
+            for (ci=l2-1; ci>l2-settings->psi_2e-2 && ci>=min_rci; ci--) {
                 if (wps[wpsi] < mic_value) {
                     mic_value = wps[wpsi];
                     mic = ci + 1;
@@ -473,7 +475,7 @@ seq_t dtw_warping_paths{{ suffix }}{{ suffix2 }}(seq_t *wps,
             // last column has smallest value
             if (psi_neg) {
                 for (idx_t ri=mir_rel + 1; ri<l1 + 1; ri++) {
-                    wpsi = ri*p.width + (p.width - 1);
+                    wpsi = final_wpsi - (l1 - ri)*p.width;
                     wps[wpsi] = -1;
                 }
             }
@@ -481,11 +483,7 @@ seq_t dtw_warping_paths{{ suffix }}{{ suffix2 }}(seq_t *wps,
         } else {
             // last row has smallest value
             if (psi_neg) {
-                for (ci=p.width - (l2 - mic); ci<p.width; ci++) {
-                    wpsi = l1*p.width + ci;
-                    if (p.window != 0 && p.window != l2) {
-                        wpsi--;
-                    }
+                for (wpsi=final_wpsi - (l2 - mic) + 1; wpsi<=final_wpsi; wpsi++) {
                     wps[wpsi] = -1;
                 }
             }
